@@ -480,7 +480,9 @@ class Model:
             o["src_edges"] = {tag(n): sorted(ce(q) for q in E if n in q[0]) for n in self.nodes}
             o["tgt_edges"] = {tag(n): sorted(ce(q) for q in E if n in q[1]) for n in self.nodes}
             o["in_deg"] = {tag(n): sum(1 for q in E if n in q[0]) for n in self.nodes}
+            o["in_degseq"] = dict(o["in_deg"])
             o["out_deg"] = {tag(n): sum(1 for q in E if n in q[1]) for n in self.nodes}
+            o["out_degseq"] = dict(o["out_deg"])
             for s in SZ:
                 sel = self._filt(s, False)
                 o[f"src_edges/size={s}"] = {tag(n): sorted(ce(q) for q in sel if n in q[0]) for n in self.nodes}
